@@ -199,3 +199,5 @@ def run(rep, programs):
     from props import c05
     c05.r_recover_domain(rep, prog)
     c05.r_recover_complete(rep, prog)
+    # a slot that claims a tree it does not hold ends in `Unreserve failed` at the next drain / re-reservation
+    c03.r_set_start_same_tree(rep, prog)
